@@ -6,7 +6,7 @@ from ..runner import run_coexec, replay_coexec
 
 MODULE = "Props.C11"
 THEOREMS = ["C11_unwinding_drop_silent", "C11_scope_left_by_panic", "C11_state_after_caught_panic", "C11_matcher_panic_effect",
-            "C11_debug_panic_effect", "C11_debug_panic_is_the_only_panic", "C11_debug_panic_nonvacuous", "C11_nonvacuous"]
+            "C11_debug_panic_effect", "C11_debug_panic_is_the_only_panic", "C11_scope_left_by_debug_panic", "C11_debug_panic_nonvacuous", "C11_nonvacuous"]
 
 RULE = ("the crash matrix, enumerated: panic origin {user code before the drop (drop while unwinding), matcher (unordered / ordered), answer function, Clone of the returned "
         "value, real (unmocked) function, default body, and each mock-induced error kind: no implementation, no matching pattern, wrong order, "
@@ -61,7 +61,9 @@ def make_case(origin, terms, probe, arm, topo, variant):
     mid, arg = probe
     evs = []
     inst = 0
-    CALL = "callm" if mid == 40 else "call"       # the Debug-panicking argument exists for the observed call only
+    # the Debug-panicking argument: through the observed call (`callm`, which also prints the matcher trace and the number of Debug
+    # runs), the plain call (variant "caught") and the scope-owned call (variant "callown")
+    CALL = "callm" if mid == 40 and variant != "caught" else "call"
     if topo in ("nvid_clone_alive", "nvid"):
         evs.append({"base": ("nvid", 0)})
     if topo in ("clone_alive", "foreign_thread_clone_alive", "nvid_clone_alive"):
@@ -76,6 +78,9 @@ def make_case(origin, terms, probe, arm, topo, variant):
         # the value chain holds a value whose Drop calls the mock (m1 is mentioned nowhere: the call fails, the Drop swallows the panic) -
         # also when the chain is released while the thread unwinds
         evs.append({"base": ("lendcall", 0, 1, 0)})
+        if origin.startswith("user:debug"):
+            # ... and one whose swallowed call panics inside the argument's Debug impl
+            evs.append({"base": ("lendcall", 0, 40, 13)})
     if origin.endswith("CannotReturnValueMoreThanOnce") or origin.endswith("CannotReturnValueMoreThanOnce)"):
         evs.append({"base": (CALL, inst, mid, arg)})  # first request takes the value
     if arm:
@@ -116,8 +121,6 @@ def gen_cases(rng, tier):
             for variant in ("callown", "call_then_unwinding_drop", "call_then_unwinding_verify", "caught"):
                 if variant == "call_then_unwinding_verify" and topo == "scope_owns_clone":
                     continue      # verify() on a clone panics by contract (C09); not a drop
-                if variant == "callown" and probe[0] == 40:
-                    continue      # the scope-owned call is not modelled for the Debug-panicking argument (callm only)
                 out.append(make_case(origin, terms, probe, arm, topo, variant))
     return out
 
